@@ -114,13 +114,24 @@ Definition set_desired_ok (calls : list call) : bool :=
 
 Definition time_is (t : option Z) (now : Z) : bool := match t with Some v => v =? now | None => false end.
 
+(* the cloud accepted an increase: a successful SetDesiredCapacity or an accepted fleet request *)
+Definition increase_accepted (calls : list call) : bool :=
+  existsb (fun c => match c with CA (ASetDesired _ _ _ true) => true | CA (ACreateFleet _ _ _ _ _ _ _ true) => true | _ => false end) calls.
+
+Definition optZ_eqb' (a b : option Z) : bool :=
+  match a, b with Some x, Some y => x =? y | None, None => true | _, _ => false end.
+Definition lock_same (a b : lock) : bool :=
+  Bool.eqb (l_locked a) (l_locked b) && optZ_eqb' (l_time a) (l_time b) && (l_requested a =? l_requested b).
+
 (* post: the group's in-memory state after the scan *)
 Definition check_C02_group (x : gctx) (calls : list call) (post : gstate) : bool :=
-  (* inside the cool-down: no write of any kind *)
-  (if in_cooldown x then match writes calls with [] => true | _ => false end else true)
-  (* the lock never outlives its cool-down: after a scan outside the cool-down it is free or freshly armed *)
-  && (if in_cooldown x then true
-      else negb (l_locked (g_lock post)) || time_is (l_time (g_lock post)) (e_now (x_env x)))
+  let pre := g_lock (x_st x) in
+  (* inside the cool-down: no write of any kind, and the lock is left exactly as it was *)
+  (if in_cooldown x then (match writes calls with [] => true | _ => false end) && lock_same (g_lock post) pre else true)
+  (* the cool-down timer restarts only when an increase was accepted (or decided, in dry mode): otherwise the lock
+     time is the one the scan found, so the lock cannot outlive the cool-down of the increase that armed it *)
+  && (optZ_eqb' (l_time (g_lock post)) (l_time pre)
+      || (time_is (l_time (g_lock post)) (e_now (x_env x)) && l_locked (g_lock post) && (x_dry x || increase_accepted calls)))
   (* an accepted SetDesiredCapacity arms the lock at the instant of the scan *)
   && (if set_desired_ok calls then l_locked (g_lock post) && time_is (l_time (g_lock post)) (e_now (x_env x)) else true).
 
@@ -186,10 +197,12 @@ Definition trigger_fires (x : gctx) : bool :=
   scale_on_starve (x_opts x) (x_max x) (usage_of x) (capacity_of x) (c_untainted (x_cls x))
   || scale_on_max_age (x_env x) (x_opts x) (x_min x) (c_untainted (x_cls x)) (c_tainted (x_cls x)).
 
-(* no API failure is injected for this group and every node's API copy equals its listed copy *)
+(* no API failure is injected for this group, every node's API copy equals its listed copy, and every tainted node
+   of the view is an instance of the cloud group (so the reaper cannot stop the scan with not-in-group) *)
 Definition api_faithful (x : gctx) : bool :=
   (match ko_get_fail (e_korc (x_env x)), ko_update_fail (e_korc (x_env x)) with [], [] => true | _, _ => false end)
-  && forallb (fun n => match api_copy x (n_name n) with Some m => node_eqb m n | None => false end) (x_nodes x).
+  && forallb (fun n => match api_copy x (n_name n) with Some m => node_eqb m n | None => false end) (x_nodes x)
+  && match x_asg x with Some a => forallb (fun n => belongs a (n_pid n)) (c_tainted (x_cls x)) | None => true end.
 
 Definition check_C06_group (x : gctx) (calls : list call) : bool :=
   let u := zlen (c_untainted (x_cls x)) in
@@ -372,7 +385,17 @@ Fixpoint check_C19_calls (x : gctx) (calls : list call) (run : list (list id * b
   | _ :: rest => block_ok run blk && check_C19_calls x rest [] []
   end.
 
-Definition check_C19_group (x : gctx) (calls : list call) : bool := check_C19_calls x calls [] [].
+(* accepted terminations of the scan *)
+Definition ok_terminations (calls : list call) : Z :=
+  count_occ_b (fun c => match c with CA (ATermInAsg _ _ true) => true | _ => false end) calls.
+
+(* never more than desired - min instances of the cloud group are terminated in one scan (desired as refreshed at
+   the start of the scan) *)
+Definition check_C19_budget (x : gctx) (calls : list call) : bool :=
+  (ok_terminations calls =? 0)
+  || match x_asg x with Some a => ok_terminations calls <=? a_desired a - a_min a | None => false end.
+
+Definition check_C19_group (x : gctx) (calls : list call) : bool := check_C19_calls x calls [] [] && check_C19_budget x calls.
 
 (* ---------- well-formed views: node names are unique (a Kubernetes invariant the nodupb-style claims rest on) ---------- *)
 Definition wf_ctx (x : gctx) : bool := nodupb (map n_name (x_nodes x)).
